@@ -49,7 +49,7 @@ class RevolveCheckpointSchedule(CheckpointSchedule):
 
     def __init__(self, max_n, snapshots_in_ram, snapshots_on_disk, schedule):
         super().__init__(max_n)
-        assert snapshots_in_ram > 0
+        assert snapshots_in_ram >= min(1, max_n - 1)
         assert max_n > 0
         self._exhausted = False
         self._snapshots_on_disk = snapshots_on_disk
